@@ -103,22 +103,40 @@ theorem calls_toProg {α} {P : Call → Prop} (h : ∀ q, Calls P (sysCall q)) (
 def EvalCall (c : Call) : Prop :=
   c = .openPath (ofString "/dev/null") ∨ c = .fork ∨ c = .waitpid ∨ (∃ h, c = .close h) ∨ ∃ p, c = .stat p
 
-macro "evalcall_step" : tactic =>
+/-- The calls of util.c `exec(argv, -1)`. -/
+def ExecCall (c : Call) : Prop :=
+  c = .openPath (ofString "/dev/null") ∨ c = .fork ∨ c = .waitpid ∨ ∃ h, c = .close h
+
+macro "execcall_step" : tactic =>
   `(tactic| first
       | (with_reducible exact Own.Calls.ret_intro _)
-      | ((with_reducible show EvalCall _); first
+      | ((with_reducible show ExecCall _); first
           | exact .inl rfl | exact .inr (.inl rfl) | exact .inr (.inr (.inl rfl))
-          | exact .inr (.inr (.inr (.inl ⟨_, rfl⟩))) | exact .inr (.inr (.inr (.inr ⟨_, rfl⟩))))
+          | exact .inr (.inr (.inr ⟨_, rfl⟩)))
       | (with_reducible apply Own.Calls.call_intro)
       | (intro _)
       | (with_reducible apply Calls.bind)
       | split
       | (dsimp only; split))
 
-theorem evalCall_execP : Calls EvalCall (execP none) := by
+theorem execCall_execP : Calls ExecCall (execP none) := by
   unfold execP
   simp only [bind_eq, pure_eq, call_bind]
-  repeat' evalcall_step
+  repeat' execcall_step
+
+theorem ExecCall.evalCall {c : Call} (h : ExecCall c) : EvalCall c := by
+  rcases h with h | h | h | h
+  · exact .inl h
+  · exact .inr (.inl h)
+  · exact .inr (.inr (.inl h))
+  · exact .inr (.inr (.inr (.inl h)))
+
+theorem calls_mono' {α} {P Q : Call → Prop} {p : Prog α} (h : Calls P p) (hpq : ∀ c, P c → Q c) : Calls Q p := by
+  induction p with
+  | ret a => exact True.intro
+  | call c k ih => exact ⟨hpq c h.1, fun r => ih r (h.2 r)⟩
+
+theorem evalCall_execP : Calls EvalCall (execP none) := calls_mono' execCall_execP fun _ h => h.evalCall
 
 theorem evalCall_sysCall (q : Req) : Calls EvalCall (sysCall q) :=
   calls_sysCall evalCall_execP (fun p => .inr (.inr (.inr (.inr ⟨p, rfl⟩)))) q
